@@ -211,13 +211,340 @@ Proof.
   destruct arg as [[c|v]|].
   - destruct (pd_col c res2) as [vals|] eqn:Ec; cbn [obind]; [|discriminate].
     destruct (agg_on rkeys vals (transform_op_map fn)) as [x'|] eqn:Ea; cbn [obind]; [|discriminate].
-    intros H. inversion H; subst. split; [reflexivity|]. apply (Fin _ _ Ea). apply PV. reflexivity.
+    intros H. inversion H; subst. split; [reflexivity|]. apply (Fin _ _ Ea). apply PV; cbn [obind]; try rewrite Ec; reflexivity.
   - destruct (const_lookup v temps) as [name|] eqn:El; cbn [obind]; [|discriminate].
     destruct (pd_col name res2) as [vals|] eqn:Ec; cbn [obind]; [|discriminate].
     destruct (agg_on rkeys vals (transform_op_map fn)) as [x'|] eqn:Ea; cbn [obind]; [|discriminate].
-    intros H. inversion H; subst. split; [reflexivity|]. apply (Fin _ _ Ea). apply PV. reflexivity.
+    intros H. inversion H; subst. split; [reflexivity|]. apply (Fin _ _ Ea). apply PV; cbn [obind]; try rewrite Ec; reflexivity.
   - destruct (strip_underscore fn) as [z|] eqn:Ez; cbn [obind]; [|discriminate].
     destruct (pd_col T res2) as [vals|] eqn:Ec; cbn [obind]; [|discriminate].
     destruct (agg_on rkeys vals (transform_op_map z)) as [x'|] eqn:Ea; cbn [obind]; [|discriminate].
-    intros H. inversion H; subst. split; [reflexivity|]. apply (Fin _ _ Ea). apply PV. reflexivity.
+    intros H. inversion H; subst. split; [reflexivity|]. apply (Fin _ _ Ea). apply PV; cbn [obind]; try rewrite Ec; reflexivity.
+Qed.
+
+(* ------------------------------------------------------------------ columns_to_frame_ on aggregate results *)
+Lemma ctf_fold_scalars (kvs : list (string * val)) st :
+  fold_left (fun (st : option (bool * option nat)) (kv : string * cval) =>
+               st' <- st ;;
+               match cval_len (snd kv) with
+               | None => Some st'
+               | Some ln => match snd st' with
+                            | None => Some (false, Some ln)
+                            | Some tr => if Nat.eqb tr ln then Some (false, Some tr) else None
+                            end
+               end) (map (fun kv => (fst kv, CScalar (snd kv))) kvs) (Some st) = Some st.
+Proof. induction kvs as [|kv kvs IH]; simpl; [reflexivity|exact IH]. Qed.
+
+Lemma ctf_scalars (kvs : list (string * val)) : kvs <> [] ->
+  columns_to_frame (map (fun kv => (fst kv, CScalar (snd kv))) kvs) None = Some (mkxf None (mktable (map fst kvs) [map snd kvs])).
+Proof.
+  intros N. unfold columns_to_frame. rewrite map_length. destruct kvs as [|kv0 kvs0] eqn:E; [congruence|]. rewrite <- E. clear N.
+  replace (Nat.ltb (List.length kvs) 1) with false by (rewrite E; reflexivity).
+  rewrite ctf_fold_scalars. cbn [fst snd].
+  rewrite map_map. cbn [fst snd promote option_map repeat].
+  rewrite (all_some_map (fun kv : string * val => (fst kv, [snd kv]))). cbn [obind].
+  unfold pd_frame_of_columns. replace (forallb _ _) with true.
+  2:{ symmetry. apply forallb_forall. intros x I. apply in_map_iff in I. destruct I as [kv [<- _]]. reflexivity. }
+  cbn [obind]. unfold clean_copy, pd_reset_index. f_equal. f_equal. f_equal; [rewrite map_map; reflexivity|].
+  cbn [transpose_cols]. rewrite !map_map. reflexivity.
+Qed.
+
+Lemma ctf_fold_grouped gk (kvs : list (string * list val)) b :
+  (forall kv, In kv kvs -> List.length (snd kv) = List.length gk) ->
+  fold_left (fun (st : option (bool * option nat)) (kv : string * cval) =>
+               st' <- st ;;
+               match cval_len (snd kv) with
+               | None => Some st'
+               | Some ln => match snd st' with
+                            | None => Some (false, Some ln)
+                            | Some tr => if Nat.eqb tr ln then Some (false, Some tr) else None
+                            end
+               end) (map (fun kv => (fst kv, CGrouped (mkgs gk (snd kv)))) kvs) (Some (b, Some (List.length gk)))
+  = Some (match kvs with [] => b | _ => false end, Some (List.length gk)).
+Proof.
+  revert b. induction kvs as [|kv kvs IH]; intros b H; simpl; [reflexivity|].
+  rewrite (H kv (or_introl eq_refl)), Nat.eqb_refl. rewrite IH by (intros x I; apply H; right; exact I).
+  destruct kvs; reflexivity.
+Qed.
+
+Lemma ctf_grouped gk (kvs : list (string * list val)) : kvs <> [] ->
+  (forall kv, In kv kvs -> List.length (snd kv) = List.length gk) ->
+  columns_to_frame (map (fun kv => (fst kv, CGrouped (mkgs gk (snd kv)))) kvs) None
+  = Some (if Nat.eqb (List.length gk) 0 then mkxf None (pd_empty_frame (map fst kvs))
+          else mkxf (Some gk) (mktable (map fst kvs) (transpose_cols (List.length gk) (map snd kvs)))).
+Proof.
+  intros N L. unfold columns_to_frame. rewrite map_length. destruct kvs as [|kv0 kvs0] eqn:E; [congruence|]. rewrite <- E in *. clear N.
+  replace (Nat.ltb (List.length kvs) 1) with false by (rewrite E; reflexivity).
+  assert (fold_left _ (map (fun kv => (fst kv, CGrouped (mkgs gk (snd kv)))) kvs) (Some (true, None)) = Some (false, Some (List.length gk))) as ->.
+  { rewrite E at 1. cbn [map fold_left obind fst snd cval_len gs_vals]. rewrite (L kv0) by (rewrite E; left; reflexivity).
+    rewrite ctf_fold_grouped by (intros x I; apply L; rewrite E; right; exact I). destruct kvs0; reflexivity. }
+  cbn [fst snd]. destruct (List.length gk) as [|m] eqn:Em.
+  - cbn [Nat.ltb Nat.leb Nat.eqb]. rewrite map_map. reflexivity.
+  - cbn [Nat.ltb Nat.leb Nat.eqb]. rewrite map_map. cbn [fst snd].
+    assert (all_some (map (fun x : string * list val => option_map (fun vs => (fst x, vs)) (promote (S m) (CGrouped (mkgs gk (snd x))))) kvs)
+            = Some (map (fun x => (fst x, snd x)) kvs)) as ->.
+    { rewrite <- all_some_map. apply all_some_ext. intros x I. cbn [promote gs_vals]. rewrite (L x I). try rewrite Em. rewrite Nat.eqb_refl. reflexivity. }
+    cbn [obind]. unfold pd_frame_of_columns. replace (forallb _ _) with true.
+    2:{ symmetry. apply forallb_forall. intros x I. apply in_map_iff in I. destruct I as [kv [<- I]]. cbn [snd]. rewrite (L kv I). try rewrite Em. apply Nat.eqb_refl. }
+    cbn [obind]. f_equal. f_equal.
+    + rewrite E. reflexivity.
+    + f_equal; [rewrite map_map; reflexivity|]. rewrite map_map. reflexivity.
+Qed.
+
+Lemma all_some_Forall2 {X Y} (f : X -> option Y) l r : all_some (map f l) = Some r -> Forall2 (fun x y => f x = Some y) l r.
+Proof.
+  revert r. induction l as [|a l IH]; intros r H; simpl in H; [inversion H; constructor|].
+  destruct (f a) as [y|] eqn:Ea; [|discriminate]. destruct (all_some (map f l)) as [r'|]; [|discriminate]. inversion H; subst.
+  constructor; [exact Ea|apply IH; reflexivity].
+Qed.
+Lemma Forall2_map_fun {X Y} (g : X -> Y) l r : Forall2 (fun x y => y = g x) l r -> r = map g l.
+Proof. induction 1 as [|x y l r H F IH]; simpl; [reflexivity|]. rewrite H, IH. reflexivity. Qed.
+
+(* ------------------------------------------------------------------ _project_step *)
+Lemma keys_le_total a b : keys_le a b = true \/ keys_le b a = true.
+Proof.
+  revert b. induction a as [|x a IH]; intros [|y b]; simpl; auto.
+  rewrite (v_eqv_sym y x). destruct (v_eqv x y); [apply IH|apply v_le_dir_total].
+Qed.
+
+Lemma group_keys_perm rk : Permutation (pd_group_keys rk) (distinct_keys rk).
+Proof. unfold pd_group_keys. apply stable_sort_perm. Qed.
+
+Lemma transpose_row_app (gk : list (list val)) (cols_vals : list (list val)) :
+  (forall vs, In vs cols_vals -> List.length vs = List.length gk) ->
+  map (fun kr => fst kr ++ snd kr) (combine gk (transpose_cols (List.length gk) cols_vals))
+  = map (fun ik => snd ik ++ map (fun vs => nth (fst ik) vs VNull) cols_vals) (combine (seq 0 (List.length gk)) gk).
+Proof.
+  intros _. rewrite transpose_rows. rewrite combine_map_r, map_map. cbn [fst snd].
+  assert (forall (n : nat) (g : list (list val)), map (fun p : list val * nat => fst p ++ map (fun vs => nth (snd p) vs VNull) cols_vals) (combine g (seq n (List.length g)))
+                      = map (fun ik : nat * list val => snd ik ++ map (fun vs => nth (fst ik) vs VNull) cols_vals) (combine (seq n (List.length g)) g)) as K.
+  { intros n g. revert n. induction g as [|k g IH]; intros n; simpl; [reflexivity|]. rewrite IH. reflexivity. }
+  apply K.
+Qed.
+
+Section Project.
+  Variable q : pquirks.
+  Variables (ops : list (string * expr)) (gb : list string) (t : table).
+  Hypothesis Wt : width_ok t.
+  Hypothesis Ngb : forall g, In g gb -> In g (cols t).
+  Hypothesis Okops : forall ke, In ke ops -> agg_ok (cols t) (snd ke).
+
+  Let names0 := set_union (cols t) (map fst ops).
+  Let T := unused_column_name base_project_temp names0.
+  Let names1 := names0 ++ [T].
+  Let rk := map (key_of (cols t) gb) (rows t).
+
+  Lemma T_fresh : ~ In T (cols t) /\ ~ In T (map fst ops).
+  Proof.
+    pose proof (unused_column_name_fresh base_project_temp names0) as F. fold T in F. unfold names0 in F.
+    split; intros I; apply F; apply In_set_union; [left|right]; exact I.
+  Qed.
+
+  (* the frame just before grouping *)
+  Lemma project_prepared st :
+    fold_left (fun acc ke => s <- acc ;; pcollect s ke) ops (Some (mkps [] names1 t)) = Some st ->
+    let res2 := pd_set_scalar T vone (ps_res st) in
+    extends_by t res2 /\ const_col res2 T vone /\ (forall v name, In (v, name) (ps_temps st) -> const_col res2 name v).
+  Proof.
+    intros H. destruct T_fresh as [Tc Tk].
+    assert (pinv names1 t (mkps [] names1 t)) as I0.
+    { split; [apply extends_refl, Wt|]. cbn [ps_res ps_names ps_temps]. split; [intros c Ic; apply in_app_iff; left; apply In_set_union; left; exact Ic|].
+      split; [intros v name []|]. split; [auto|]. intros c Ic. left. exact Ic. }
+    assert (forall c, In c (cols t) -> In c (ps_names (mkps [] names1 t))) as Nt0.
+    { intros c Ic. cbn [ps_names]. apply in_app_iff. left. apply In_set_union. left. exact Ic. }
+    destruct (pcollect_fold names1 t ops _ st I0 Nt0 H) as [[E [Nm [Tm [Bs Cs]]]] _].
+    assert (In T names1) as IT by (apply in_app_iff; right; left; reflexivity).
+    destruct E as [W [Inc F]]. cbn zeta. split; [|split].
+    - apply extends_set_scalar; [split; [exact W|split; assumption]|exact Tc].
+    - apply const_col_set_scalar, W.
+    - intros v name Iv. destruct (Tm v name Iv) as [Cc [_ Nb]]. apply const_col_keep; [exact W| |exact Cc]. intros ->. contradiction.
+  Qed.
+End Project.
+
+Lemma fold_set_empty_cols (gs : list string) : forall t, rows t = [] ->
+  fold_left (fun acc g => r <- acc ;; pd_set_col g [] r) gs (Some t) = Some (mktable (fold_left add_end gs (cols t)) []).
+Proof.
+  induction gs as [|g gs IH]; intros t E; simpl.
+  - rewrite <- E. rewrite table_eta. reflexivity.
+  - unfold pd_set_col at 2. unfold nrows. rewrite E. cbn [List.length Nat.eqb combine map obind]. rewrite IH by reflexivity. reflexivity.
+Qed.
+
+Lemma filter_all_rows (cs : list string) (rs : list (list val)) : filter (fun r => keys_eqv [] (key_of cs [] r)) rs = rs.
+Proof. rewrite (filter_ext _ (fun _ => true)) by (intros r; reflexivity). apply filter_true. Qed.
+
+Lemma set_diff_self_app (gb ks : list string) : set_diff (py_set gb) (gb ++ ks) = [].
+Proof. unfold set_diff. apply filter_none. intros x I. apply (proj1 (In_py_set _ _)) in I. apply negb_false_iff, mem_In, in_app_iff. left. exact I. Qed.
+
+Lemma nth_combine_seq {A} (l : list A) : forall n i k, In (i, k) (combine (seq n (List.length l)) l) -> forall d, nth (i - n) l d = k /\ (n <= i < n + List.length l)%nat.
+Proof.
+  induction l as [|a l IH]; intros n i k I d; simpl in I; [contradiction|]. destruct I as [I|I].
+  - inversion I; subst. rewrite Nat.sub_diag. simpl. split; [reflexivity|lia].
+  - destruct (IH (S n) i k I d) as [E R]. simpl. split; [|lia]. replace (i - n)%nat with (S (i - S n)) by lia. exact E.
+Qed.
+
+Lemma px_project_refines q ops gb t u :
+  width_ok t -> (forall g, In g gb -> In g (cols t)) -> (forall ke, In ke ops -> agg_ok (cols t) (snd ke)) ->
+  (ops <> [] \/ gb <> []) ->      (* a node has at least one column (ViewRepresentation.__init__) *)
+  px_project q ops gb t = Some u -> refines u (sem_project fl_pandas ops gb t) /\ width_ok u.
+Proof.
+  intros Wt Ngb Ok NE. unfold px_project.
+  set (names0 := set_union (cols t) (map fst ops)). set (T := unused_column_name base_project_temp names0).
+  destruct (fold_left _ ops (Some (mkps [] (names0 ++ [T]) t))) as [st|] eqn:Ef; cbn [obind]; [|discriminate].
+  destruct (project_prepared ops t Wt st Ef) as [E [CT CC]]. fold names0 T in E, CT, CC.
+  destruct (T_fresh ops t) as [Tc Tk]. fold names0 T in Tc, Tk. clearbody T. clearbody names0.
+  set (res2 := pd_set_scalar T vone (ps_res st)) in *.
+  set (rk := map (key_of (cols t) gb) (rows t)).
+  assert ((match gb with [] => Some None | _ :: _ => option_map Some (pd_row_keys gb res2) end)
+          = Some (match gb with [] => None | _ => Some rk end)) as ->.
+  { destruct gb as [|g0 gb0]; [reflexivity|]. unfold pd_row_keys.
+    replace (subset (g0 :: gb0) (cols res2)) with true by (symmetry; apply subset_spec; intros x I; apply E, Ngb, I).
+    cbn [option_map]. rewrite (extends_keys _ _ _ E Ngb). reflexivity. }
+  cbn [obind]. set (rkeys := match gb with [] => None | _ => Some rk end).
+  assert (rkeys = None \/ rkeys = Some (map (key_of (cols t) gb) (rows t))) as Rk by (unfold rkeys; destruct gb; [left|right]; reflexivity).
+  (* the values of the outputs *)
+  set (X := fun e : expr => match rkeys with
+                            | None => CScalar (agg_value fl_pandas (cols t) (rows t) e)
+                            | Some rk0 => CGrouped (mkgs (pd_group_keys rk0) (agg_groups t gb e (pd_group_keys rk0)))
+                            end).
+  assert (forall cols', (match ops with
+                         | [] => vals <- pd_col T res2 ;; x <- agg_on rkeys vals "sum" ;; Some [(T, x)]
+                         | _ :: _ => all_some (map (pagg rkeys (ps_temps st) T res2) ops)
+                         end) = Some cols' ->
+          match ops with [] => exists x, cols' = [(T, x)] /\ agg_on rkeys (map (fun _ => vone) (rows t)) "sum" = Some x
+                    | _ => cols' = map (fun ke => (fst ke, X (snd ke))) ops end) as Hc.
+  { intros cols'. destruct ops as [|op0 ops0] eqn:Eo.
+    - destruct (pd_col T res2) as [vals|] eqn:Ec; cbn [obind]; [|discriminate]. apply pd_col_inv in Ec. destruct Ec as [-> _].
+      rewrite (const_col_getcol _ _ _ CT), (map_const_len vone (rows res2) (rows t) (extends_rows_len _ _ E)).
+      destruct (agg_on rkeys _ "sum") as [x|] eqn:Ea; cbn [obind]; [|discriminate]. intros H. inversion H; subst. exists x. split; reflexivity.
+    - rewrite <- Eo in *. intros H. apply all_some_Forall2 in H. apply Forall2_map_fun.
+      assert (forall ke, In ke ops -> forall y, pagg rkeys (ps_temps st) T res2 ke = Some y -> y = (fst ke, X (snd ke))) as P.
+      { intros ke I [k x] Hp. destruct (pagg_spec t gb res2 (ps_temps st) T rkeys ke k x E CT CC (Ok ke I) Rk Hp) as [-> ->]. reflexivity. }
+      clear -H P. induction H as [|ke y l r Hy F IH]; constructor; [apply P; [left; reflexivity|exact Hy]|].
+      apply IH. intros ke' I. apply P. right. exact I. }
+  destruct (match ops with [] => _ | _ :: _ => _ end) as [cols'|] eqn:Ecols; cbn [obind]; [|discriminate].
+  specialize (Hc cols' eq_refl).
+  destruct (list_eq_dec string_dec gb []) as [Egb|Ngb0].
+  - (* ---- no grouping: one row *)
+    subst gb. subst X. subst rkeys. cbv beta iota in Hc. cbn [List.length Nat.ltb Nat.leb orb].
+    assert (exists kvs : list (string * val), kvs <> [] /\ cols' = map (fun kv => (fst kv, CScalar (snd kv))) kvs /\
+              (ops <> [] -> kvs = map (fun ke => (fst ke, agg_value fl_pandas (cols t) (rows t) (snd ke))) ops) /\
+              (ops = [] -> map fst kvs = [T])) as [kvs [Nk [-> [Ko Kn]]]].
+    { destruct ops as [|op0 ops0] eqn:Eo.
+      - destruct Hc as [x [-> Ha]]. cbn [agg_on] in Ha. destruct (pd_series_agg "sum" _) as [s|]; [|discriminate]. inversion Ha; subst.
+        exists [(T, s)]. split; [discriminate|]. split; [reflexivity|]. split; [congruence|reflexivity].
+      - rewrite <- Eo in *. exists (map (fun ke => (fst ke, agg_value fl_pandas (cols t) (rows t) (snd ke))) ops).
+        split; [rewrite Eo; discriminate|]. split; [rewrite Hc, map_map; reflexivity|]. split; [reflexivity|]. intros C. rewrite Eo in C. discriminate. }
+    rewrite (ctf_scalars kvs Nk). cbn [obind xf_tab xf_index nrows rows List.length]. cbn [Nat.ltb Nat.leb orb].
+    cbn [py_set fold_left set_diff filter List.length Nat.eqb].
+    assert (ops <> []) as No by (destruct NE as [C|C]; [exact C|congruence]).
+    rewrite (Ko No), map_map. cbn [obind fst cols].
+    replace (mem T (map (fun x : string * expr => fst x) ops)) with false by (symmetry; apply mem_false, Tk).
+    cbn [obind]. unfold table_is_keyed, nrows. cbn [rows List.length Nat.ltb Nat.leb obind].
+    intros H. inversion H; subst. split; [|unfold width_ok; cbn [cols rows]; constructor; [rewrite !map_length; reflexivity|constructor]].
+    unfold sem_project. cbn [app map]. rewrite filter_all_rows, !map_map. cbn [snd]. apply refines_refl.
+  - (* ---- grouped *)
+    assert (forall (A : Type) (a b : A), match gb with [] => a | _ :: _ => b end = b) as Mgb by (intros; destruct gb; [congruence|reflexivity]).
+    subst X. subst rkeys. cbv beta in Hc. rewrite (Mgb _ None (Some rk)) in *.
+    set (gk := pd_group_keys rk) in *.
+    assert (exists kvs : list (string * list val), kvs <> [] /\ cols' = map (fun kv => (fst kv, CGrouped (mkgs gk (snd kv)))) kvs /\
+              (forall kv, In kv kvs -> List.length (snd kv) = List.length gk) /\
+              (ops <> [] -> kvs = map (fun ke => (fst ke, agg_groups t gb (snd ke) gk)) ops) /\
+              (ops = [] -> map fst kvs = [T])) as [kvs [Nk [-> [Lk [Ko Kn]]]]].
+    { destruct ops as [|op0 ops0] eqn:Eo.
+      - destruct Hc as [x [-> Ha]]. cbn [agg_on] in Ha. unfold pd_grouped_agg in Ha. destruct (_ && _); [|discriminate]. cbn [option_map] in Ha.
+        inversion Ha; subst. fold gk. eexists [(T, _)]. split; [discriminate|]. split; [reflexivity|]. split; [|split; [congruence|reflexivity]].
+        intros kv [<-|[]]. cbn [snd]. apply map_length.
+      - rewrite <- Eo in *. exists (map (fun ke => (fst ke, agg_groups t gb (snd ke) gk)) ops).
+        split; [rewrite Eo; discriminate|]. split; [rewrite Hc, map_map; reflexivity|]. split; [|split; [reflexivity|intros C; rewrite Eo in C; discriminate]].
+        intros kv I. apply in_map_iff in I. destruct I as [ke [<- _]]. cbn [snd]. unfold agg_groups. apply map_length. }
+    rewrite (ctf_grouped gk kvs Nk Lk). cbn [obind].
+    replace (Nat.ltb (List.length gb) 1) with false by (destruct gb; [congruence|reflexivity]). cbn [orb].
+    destruct (Nat.eqb (List.length gk) 0) eqn:Em.
+    + (* no group at all: the input has no rows *)
+      apply Nat.eqb_eq, length_zero_nil in Em.
+      cbn [xf_tab xf_index nrows rows pd_empty_frame List.length Nat.leb Nat.ltb obind cols].
+      rewrite fold_set_empty_cols by reflexivity. unfold pd_empty_frame. cbn [obind cols].
+      set (cs3 := fold_left add_end (set_diff (py_set gb) (map fst kvs)) (map fst kvs)).
+      assert (same_set (remove_elem T cs3) (gb ++ map fst ops) /\ (mem T cs3 = false -> same_set cs3 (gb ++ map fst ops))) as [S1 S2].
+      { assert (forall x, In x cs3 <-> In x gb \/ In x (map fst kvs)) as I3.
+        { intros x. unfold cs3. rewrite In_fold_add_end, In_set_diff, In_py_set. destruct (in_dec string_dec x (map fst kvs)); tauto. }
+        destruct ops as [|op0 ops0] eqn:Eo.
+        - rewrite (Kn eq_refl) in I3. split.
+          + intros x. rewrite In_remove_elem, I3, in_app_iff. cbn [In map]. split; [intros [[I|[<-|[]]] N]; [left; exact I|congruence]|].
+            intros [I|[]]. split; [left; exact I|]. intros ->. apply Tc, Ngb, I.
+          + intros M. exfalso. apply mem_false in M. apply M, I3. right. left. reflexivity.
+        - rewrite <- Eo in *. rewrite (Ko ltac:(rewrite Eo; discriminate)), map_map in I3. cbn [fst] in I3. split.
+          + intros x. rewrite In_remove_elem, I3, in_app_iff. split; [intros [[I|I] _]; [left; exact I|right; exact I]|].
+            intros I. split; [destruct I as [I|I]; [left; exact I|right; exact I]|]. intros ->. destruct I as [I|I]; [apply Tc, Ngb, I|apply Tk, I].
+          + intros _ x. rewrite I3, in_app_iff. split; intros [I|I]; [left; exact I|right; exact I|left; exact I|right; exact I]. }
+      assert (rows (sem_project fl_pandas ops gb t) = []) as Rs.
+      { unfold sem_project. cbn [rows]. rewrite (Mgb _ [[]]). fold rk.
+        assert (distinct_keys rk = []) as ->; [|reflexivity].
+        apply Permutation_nil. rewrite <- Em. apply group_keys_perm. }
+      destruct (mem T cs3) eqn:MT.
+      * unfold pd_del. cbn [cols]. rewrite MT. cbn [obind sem_select_cols cols rows map]. unfold table_is_keyed, nrows. cbn [rows List.length Nat.ltb Nat.leb obind].
+        intros H. inversion H; subst. split; [|unfold width_ok; cbn [rows]; constructor].
+        apply refines_of_eqv. split; cbn [cols rows]; [exact S1|]. rewrite Rs. constructor.
+      * cbn [obind]. unfold table_is_keyed, nrows. cbn [rows List.length Nat.ltb Nat.leb obind].
+        intros H. inversion H; subst. split; [|unfold width_ok; cbn [rows]; constructor].
+        apply refines_of_eqv. split; cbn [cols rows]; [apply S2; reflexivity|]. rewrite Rs. constructor.
+    + (* one row per group, in sorted key order *)
+      cbn [xf_tab xf_index]. unfold nrows at 1. cbn [rows]. rewrite transpose_rows at 1. rewrite map_length, seq_length.
+      replace (Nat.leb (List.length gk) 0) with false by (symmetry; apply Nat.leb_gt; apply Nat.eqb_neq in Em; lia).
+      unfold pd_reset_index_insert. destruct (_ && _ && _) eqn:Chk; cbn [obind]; [|discriminate].
+      cbn [cols rows]. unfold nrows at 1. cbn [rows].
+      rewrite (transpose_row_app gk (map snd kvs)) by (intros vs I; apply in_map_iff in I; destruct I as [kv [<- I]]; apply Lk, I).
+      rewrite map_length, combine_length, seq_length, Nat.min_id.
+      replace (Nat.ltb 0 (List.length gk)) with true by (symmetry; apply Nat.ltb_lt; apply Nat.eqb_neq in Em; lia).
+      rewrite set_diff_self_app. cbn [List.length Nat.eqb obind].
+      assert (forall k, In k gk -> List.length k = List.length gb) as Lgk.
+      { intros k I. apply (Permutation_in _ (group_keys_perm rk)) in I. apply distinct_keys_sound in I.
+        unfold rk in I. apply in_map_iff in I. destruct I as [r [<- _]]. apply key_of_length. }
+      assert (forall (res : table), (keyed <- table_is_keyed q gb res ;; (if keyed then Some res else None)) = Some u -> u = res) as Kd.
+      { intros res H. destruct (table_is_keyed q gb res) as [[|]|]; cbn [obind] in H; inversion H. reflexivity. }
+      destruct ops as [|op0 ops0] eqn:Eo.
+      * (* no outputs: the scratch column carries the group sums and is dropped *)
+        set (semrow := fun k : list val => k ++ map (fun ke : string * expr =>
+                       agg_value fl_pandas (cols t) (filter (fun r => keys_eqv k (key_of (cols t) gb r)) (rows t)) (snd ke)) (@nil (string * expr))).
+        assert (Permutation (map semrow gk) (rows (sem_project fl_pandas [] gb t))) as Pm.
+        { unfold sem_project. cbn [rows]. rewrite (Mgb _ [[]]). fold rk. apply Permutation_map, group_keys_perm. }
+        pose proof (Kn eq_refl) as K1. destruct kvs as [|[k1 v1] [|kv2 kvs2]]; try discriminate. cbn [map fst] in K1. inversion K1; subst k1.
+        cbn [cols map snd]. replace (mem T (gb ++ [T])) with true by (symmetry; apply mem_In, in_app_iff; right; left; reflexivity).
+        unfold pd_del. cbn [cols]. replace (mem T (gb ++ [T])) with true by (symmetry; apply mem_In, in_app_iff; right; left; reflexivity).
+        cbn [obind]. intros H. apply Kd in H. subst u. split; [|apply width_select_cols].
+        exists (mktable gb (map semrow gk)). split; [|split; [unfold sem_project; cbn [cols map]; rewrite app_nil_r; reflexivity|exact Pm]].
+        split; cbn [cols rows sem_select_cols].
+        -- intros x. rewrite In_remove_elem, in_app_iff. cbn [In]. split; [intros [[I|[E1|[]]] N]; [exact I|exfalso; apply N; symmetry; exact E1]|].
+           intros I. split; [left; exact I|]. intros ->. apply Tc, Ngb, I.
+        -- rewrite map_map. rewrite <- (map_snd_combine (seq 0 (List.length gk)) gk) at 3 by apply seq_length. rewrite map_map.
+           apply Forall2_map_same. intros [i k] I c. cbn [fst snd]. unfold semrow. cbn [map]. rewrite app_nil_r.
+           rewrite get_map_cols. rewrite mem_remove_elem.
+           assert (List.length k = List.length gb) as Lk' by (apply Lgk; eapply in_combine_r; exact I).
+           destruct (mem c (gb ++ [T])) eqn:M1; cbn [andb].
+           ++ unfold eqb. destruct (eq_dec T c) as [<-|n]; cbn [negb].
+              ** symmetry. apply get_absent. intros IT. apply Tc, Ngb, IT.
+              ** apply mem_In, in_app_iff in M1. destruct M1 as [M1|[M1|[]]]; [|congruence]. apply get_app_l; assumption.
+           ++ symmetry. apply get_absent. intros IT. apply mem_false in M1. apply M1, in_app_iff. left. exact IT.
+      * rewrite <- Eo in *.
+        set (semrow := fun k : list val => k ++ map (fun ke : string * expr =>
+                       agg_value fl_pandas (cols t) (filter (fun r => keys_eqv k (key_of (cols t) gb r)) (rows t)) (snd ke)) ops).
+        assert (Permutation (map semrow gk) (rows (sem_project fl_pandas ops gb t))) as Pm.
+        { unfold sem_project. cbn [rows]. rewrite (Mgb _ [[]]). fold rk. apply Permutation_map, group_keys_perm. }
+        assert (ops <> []) as No by (rewrite Eo; discriminate). rewrite (Ko No). rewrite !map_map. cbn [fst snd cols].
+        replace (mem T (gb ++ map (fun x : string * expr => fst x) ops)) with false.
+        2:{ symmetry. apply mem_false. intros I. apply in_app_iff in I. destruct I as [I|I]; [apply Tc, Ngb, I|apply Tk, I]. }
+        cbn [obind]. intros H. apply Kd in H. subst u.
+        assert (map (fun ik : nat * list val => snd ik ++ map (fun vs : list val => nth (fst ik) vs VNull)
+                                                               (map (fun x : string * expr => agg_groups t gb (snd x) gk) ops))
+                    (combine (seq 0 (List.length gk)) gk) = map semrow gk) as ->.
+        { rewrite <- (map_snd_combine (seq 0 (List.length gk)) gk) at 3 by apply seq_length. rewrite map_map.
+          apply map_ext_in. intros [i k] I. cbn [fst snd]. unfold semrow. f_equal. rewrite map_map. apply map_ext. intros ke.
+          destruct (nth_combine_seq gk 0 i k I []) as [Ek Ri]. rewrite Nat.sub_0_r in Ek. unfold agg_groups.
+          rewrite (nth_indep _ VNull (agg_value fl_pandas (cols t) (filter (fun r => keys_eqv [] (key_of (cols t) gb r)) (rows t)) (snd ke))) by (rewrite map_length; lia).
+          rewrite (map_nth (fun key => agg_value fl_pandas (cols t) (filter (fun r => keys_eqv key (key_of (cols t) gb r)) (rows t)) (snd ke)) gk []).
+          rewrite Ek. reflexivity. }
+        split.
+        -- apply refines_of_perm; [reflexivity|exact Pm].
+        -- unfold width_ok. cbn [cols rows]. apply Forall_forall. intros r I. apply in_map_iff in I. destruct I as [k [<- Ik]].
+           unfold semrow. rewrite !app_length, !map_length, (Lgk k Ik). reflexivity.
 Qed.
